@@ -62,7 +62,6 @@ def evalLine (toks : List String) : Option String := do
   let rows ← (kv? hd "rows") >>= parseNat?
   let logCols ← (kv? hd "logcols") >>= parseNat?
   let mode ← kv? hd "mode"
-  let inplace ← (kv? hd "inplace") >>= parseNat?
   let ctlvl ← (kv? hd "ctlvl") >>= parseNat?
   let ctscale ← (kv? hd "ctscale") >>= parseNat?
   let outlvl ← (kv? hd "outlvl") >>= parseNat?
@@ -118,7 +117,7 @@ def evalLine (toks : List String) : Option String := do
       | none => return head ++ s!"req={showVec req} err"
       | some (l, sc) => return head ++ s!"req={showVec req} ok out lvl={l} scale={sc} vals={showVals r}"
   else
-    let rs := evalMany O lts vv (inplace == 0)
+    let rs := evalMany O lts vv
     if rs.any isPanic then return head ++ s!"req={showVec req} panic"
     let outs := (lts.zip rs).map fun (lt, r) =>
       let ol := if mode == "many" || mode == "new" then lt.levelQ else outlvl
